@@ -2734,10 +2734,11 @@ theorem C09_aggr_enum_element_never_silent {F} (env : Env F) (ty : ElemTy) (het 
       v = .atom (valueToAtom (enumValue (enumKindOf ty) (some i) : Value F)) ∧ AtDelimOrEnd env.lex s1.right :=
   elemCore_enum_sound env ty het l c t sk hc h44 h41 e v s1 (elemRead_core env ty s l c t sk hsA e v s1 h hne) hne
 
-/-- entity references: stated for a stream whose `skipws` flag is on (it is off only after a STRING was read from the same
-    stream; then `# 5` is no longer accepted, which this theorem does not follow) -/
+/-- entity references, either state of `skipws` (it is off after a STRING was read from the same stream; then `# 5` is no
+    longer accepted — `readEntityRef_sound_nosk` — and `spx` is empty) -/
 theorem C09_aggr_ref_element_never_silent {F} (env : Env F) (tg : String) (s : IStream) (l : List Byte) (c : Byte) (t : List Byte)
-    (hsA : (if env.cfg.aggrSkipsComments then readTokenSeparator s else s) = G l (c :: t) true) (hc : isSpace c = false)
+    (sk : Bool)
+    (hsA : (if env.cfg.aggrSkipsComments then readTokenSeparator s else s) = G l (c :: t) sk) (hc : isSpace c = false)
     (hd : delimAt env.lex attrDelims c = false) (h47 : c ≠ 47)
     (e : Sev) (v : Elem F) (s1 : IStream)
     (h : elemRead env (.entity tg) s = .ok (e, v, s1)) (hne : ¬ e.toInt < Sev.incomplete.toInt) :
@@ -2745,7 +2746,7 @@ theorem C09_aggr_ref_element_never_silent {F} (env : Env F) (tg : String) (s : I
       Between env.lex sp2 ∧ Between env.lex sp3 ∧ isInteger tok = true ∧ intMin ≤ denoteInteger tok ∧ denoteInteger tok ≤ intMax ∧
       refLookup env.lookup tg (denoteInteger tok) = .found ∧ v = .atom (.ref (denoteInteger tok)) ∧
       AtDelimOrEnd env.lex s1.right :=
-  elemCore_ref_sound env tg l c t hc hd h47 e v s1 (elemRead_core env (.entity tg) s l c t true hsA e v s1 h hne) hne
+  elemCore_ref_sound_any env tg l c t sk hc hd h47 e v s1 (elemRead_core env (.entity tg) s l c t sk hsA e v s1 h hne) hne
 
 /-- a `LoopRun` stores one value per element-reader call (so the count of stored elements is the count of element positions) -/
 theorem C09_aggr_looprun_elements {F} (env : Env F) (ty : ElemTy) (c : Byte) (s sf : IStream) (vs : List (Elem F))
